@@ -5,8 +5,8 @@ from harness.translators import html_styles
 
 META = dict(
     id='C20',
-    model_run='PG.Model.HtmlDoc.run',
-    model_targets=['Model/HtmlDoc.vo'],
+    model_run='PG.Model.HtmlCtl.run',
+    model_targets=['Model/HtmlCtl.vo'],
     technique=('Coq proof over an executable model of Html.element / html.escape / HtmlTreeView / Html.to_str (induction on the rendered tree and on the value, any depth, any strings) '
                '+ a strict HTML parser written as a pushdown automaton and proved to read back every rendered tree '
                '+ CSS constants and the document-assembly functions regenerated / re-checked from the source by a fail-closed ast translator '
@@ -839,6 +839,75 @@ def control_hits(which, ctl, data, shown):
   return hits, out
 
 # ------------------------------------------------------------------------------------------------
+# controls -> Model/HtmlCtl.v ctl (wire format documented there)
+class NotModelled(Exception):
+  pass
+
+def conv_common(ctl, id_, styles=None):
+  st = ctl.styles if styles is None else styles
+  return [trlib.opt(id_), [trlib.enc(x) for x in ctl.css_classes], [[trlib.enc(k.replace('_', '-')), trlib.enc(str(v))] for k, v in st.items() if v is not None]]
+
+def conv_label(l):
+  if not isinstance(l.text, str):
+    raise NotModelled('markup text')
+  tip = None
+  if l.tooltip is not None:
+    if not isinstance(l.tooltip.content, str):
+      raise NotModelled('markup tooltip')
+    tip = [conv_common(l.tooltip, l.tooltip.element_id()), trlib.enc(l.tooltip.content)]
+  return [conv_common(l, l.element_id()), trlib.opt(l.link), trlib.opt(l.target), trlib.enc(l.text), [] if tip is None else [tip]]
+
+def conv_control(ctl):
+  from pyglove.core.views.html import controls as c
+  from pyglove.core import utils
+  p = pg()
+  if isinstance(ctl, c.Label):
+    return [0, conv_label(ctl)]
+  if isinstance(ctl, c.Tooltip):
+    if not isinstance(ctl.content, str): raise NotModelled('markup tooltip')
+    return [1, conv_common(ctl, ctl.element_id()), trlib.enc(ctl.content)]
+  if isinstance(ctl, c.LabelGroup):
+    return [2, conv_common(ctl, ctl.id or None), [] if ctl.name is None else [conv_label(ctl.name)], [conv_label(l) for l in ctl.labels]]
+  if isinstance(ctl, c.ProgressBar):
+    subs = []
+    for sp in ctl.subprogresses:
+      st = dict(sp.styles); st.update(width=sp.width)
+      subs.append([conv_common(sp, sp.element_id(), st), trlib.enc(utils.camel_to_snake(sp.name, '-'))])
+    return [3, subs, conv_label(ctl._progress_label)]
+  if isinstance(ctl, c.TabControl):
+    tabs = []
+    for i, t in enumerate(ctl.tabs):
+      if isinstance(t.content, c.Label): cont = [0, conv_label(t.content)]
+      elif isinstance(t.content, (p.Dict, p.List)): cont = [1, model_options({}), conv(t.content, [])]
+      else: raise NotModelled('tab content')
+      tabs.append([conv_label(t.label), [trlib.enc(x) for x in t.css_classes], trlib.opt(ctl.element_id(str(i))), cont])
+    return [4, conv_common(ctl, None), 1 if ctl.tab_position == 'left' else 0, ctl.selected, trlib.opt(ctl.element_id()),
+            trlib.opt(ctl.element_id('button-group')), trlib.opt(ctl.element_id('content-group')), tabs]
+  raise NotModelled(type(ctl).__name__)
+
+def normalise_onclick(out):
+  """The one normalisation: inside onclick="..." the code writes raw apostrophes, the model writes them as &#x27; (the same attribute value)."""
+  return re.sub(r'onclick="([^"]*)"', lambda m: 'onclick="' + m.group(1).replace("'", '&#x27;') + '"', out)
+
+def py_lex_js_string(l):
+  """Model/HtmlCtl.v lex_js_string."""
+  if not l or l[0] != '"':
+    return None
+  acc, i, n = [], 1, len(l)
+  while i < n:
+    ch = l[i]
+    if ch == '\\':
+      if i + 1 >= n or l[i + 1] not in JS_UNESC: return None
+      acc.append(JS_UNESC[l[i + 1]]); i += 2
+    elif ch == '"':
+      return [''.join(acc), l[i + 1:]]
+    elif ch in '\r\n':
+      return None
+    else:
+      acc.append(ch); i += 1
+  return None
+
+# ------------------------------------------------------------------------------------------------
 # histories: rendering, updating interactive controls (which emits JavaScript) and rendering again, in one process, over a
 # shared pool of hostile strings.  Every output of the sequence goes through the oracle; so does every update script.
 JS_UNESC = {'n': '\n', 'r': '\r', 't': '\t', '\\': '\\', '"': '"', "'": "'"}
@@ -1180,6 +1249,14 @@ def run(ctx):
       ctx.count(json.dumps(spec, sort_keys=True), nontrivial=True, kind='control-' + which); nctl += 1
       if out is not None:
         outputs.append(re.sub(r'control-\d+', 'control-1', out))
+      # the same control against Model/HtmlCtl.v ctl_node (a second build: element ids are addresses, so convert and render the same object)
+      ctl, _, _ = build_control(spec)
+      try:
+        ct = conv_control(ctl)
+        trs.append([5, ct]); impl_outs.append([5, trlib.enc(normalise_onclick(ctl.to_html_str(content_only=True)))]); descr.append(dict(spec=spec, what='control vs model'))
+        ctx.hist('controls_modelled', which)
+      except NotModelled as e:
+        ctx.hist('controls_not_modelled', '%s: %s' % (which, e))
   ctx.extra['control_cases'] = nctl
 
   # ---- the Python strict tokenizer against the proved Coq parser (real, mutated and hand-written documents)
@@ -1218,6 +1295,41 @@ def run(ctx):
     ctx.hist('element_trees', 'names-ok' if ok else 'bad-names-or-raw'); ntrees += 1
     ctx.count(('tree', json.dumps(t)), nontrivial=True, kind='html-element-tree')
   ctx.extra['html_element_trees'] = ntrees
+
+  # ---- the JavaScript side: Html.escape(javascript_str=True), the literal lexer and the update scripts against Model/HtmlCtl.v
+  from pyglove.core.views.html.base import Html as Html_
+  from pyglove.core.views.html import controls as ctl_lib
+  jstrs = [''.join(t) for n_ in range(0, 4) for t in itertools.product('\\"\n\r\t\'a', repeat=n_)]
+  jstrs += [''.join(rng.choice(FRAGMENTS + ['\\', '"', '\n', '\r', '\t', 'ZQ1X', '\u2028', "'"]) for _ in range(rng.randint(1, 6))) for _ in range(ctx.scale(300, 3000))]
+  for js_ in jstrs:
+    rest = rng.choice(['', ';', '"; x = "y"', '\n', 'abc'])
+    e_ = Html_.escape(js_, javascript_str=True)
+    trs.append([6, trlib.enc(js_), trlib.enc(rest)])
+    lx = py_lex_js_string('"' + e_ + '"' + rest)
+    impl_outs.append([6, trlib.enc(e_), [] if lx is None else [[trlib.enc(lx[0]), trlib.enc(lx[1])]]]); descr.append(dict(js_string=js_, rest=rest))
+    if lx is None or lx[0] != js_ or lx[1] != rest:
+      ctx.hit('C20/js-literal/breaks-out', 'the JavaScript literal of %r does not end at its closing quote or does not decode to the string' % js_, dict(spec=dict(kind='js', s=js_)))
+    ctx.count(('js', js_, rest), nontrivial=any(c_ in js_ for c_ in '\\"\n\r'), kind='escape-js')
+  for _ in range(ctx.scale(300, 3000)):      # arbitrary (mostly broken) literals: the Python lexer against the Coq lexer
+    src = '"' + ''.join(rng.choice(['\\', '"', '\n', 'a', '\\n', '\\"', '\\x', "'", ' ', '\\\\']) for _ in range(rng.randint(0, 6))) + rng.choice(['"', '', '";'])
+    if rng.random() < 0.1: src = src[1:]
+    lx = py_lex_js_string(src)
+    trs.append([9, trlib.enc(src)]); impl_outs.append([9, [] if lx is None else [[trlib.enc(lx[0]), trlib.enc(lx[1])]]]); descr.append(dict(js_source=src))
+    ctx.count(('jslex', src), nontrivial=True, kind='js-lexer-vs-coq')
+  lab = ctl_lib.Label('x', interactive=True); lab.to_html()
+  tip = ctl_lib.Tooltip('x', for_element='.e', interactive=True); tip.to_html()
+  for js_ in rng.sample(jstrs, min(len(jstrs), ctx.scale(150, 1500))):
+    with ctl_lib.HtmlControl.track_scripts() as scr:
+      lab.update(text=js_)
+    trs.append([7, trlib.enc(lab.element_id()), trlib.enc(js_)]); impl_outs.append([7, trlib.enc(scr[0])]); descr.append(dict(update_text=js_))
+    ctx.count(('upd', js_), nontrivial=True, kind='update-script')
+  for _ in range(ctx.scale(100, 1000)):
+    t_ = gen_tree(rng, rng.choice([1, 2, 3]), bad=rng.choice([0, 0.1]))
+    b_ = build_tree(t_)
+    with ctl_lib.HtmlControl.track_scripts() as scr:
+      tip.update(Html_(b_) if isinstance(b_, str) else b_)
+    trs.append([8, trlib.enc(tip.element_id()), [enc_tree(t_)]]); impl_outs.append([8, trlib.enc(scr[0])]); descr.append(dict(update_inner_html=json.dumps(t_)[:300]))
+    ctx.count(('inner', json.dumps(t_)), nontrivial=True, kind='update-script')
 
   # ---- html.escape against the model escape (exhaustive on short strings over the critical alphabet, then random)
   alpha = '&<>"\';a#x27lt'
